@@ -9,10 +9,18 @@ for d in sorted(glob.glob(os.path.join(HERE,'seeded','*'))):
     c=m.get('my_check',{})
     needs=(m.get('needs') or '').replace('|','/').replace('\n',' ')
     if len(needs)>230: needs=needs[:227]+'...'
+    reg = ''
+    rp = os.path.join(d,'regress.txt')
+    if os.path.exists(rp):
+        rt = open(rp,errors='replace').read()
+        import re as _re
+        cl = sorted(set(_re.findall(r'class=(\S+)',rt)))
+        if 'exit=' not in rt and 'error:' not in rt: rt = ''
+        reg = '' if not rt else ("caught again (%s)"%', '.join(cl)[:110]) if 'VIOLATION property=' in rt else ("patch no longer applies (tree changed by later fixes)" if 'error:' in rt else "NOT caught")
     first = "missed, caught after strengthening" if m.get('missed_at_first_evaluation') else ("-" if not c.get('detected') else "caught")
     if m.get('note'): first = m['note']
-    rows.append("| %s | %s | %s | %s | %s |"%(os.path.basename(d),', '.join(os.path.basename(f) for f in m.get('files_changed',[]))[:60],needs,first,
-        ("**caught** (%s)"%', '.join(c.get('violation_classes',[]))[:150]) if c.get('detected') else "**not caught**"))
-print("| seed | files | needs, to manifest | first evaluation | quick check now |")
-print("|---|---|---|---|---|")
+    rows.append("| %s | %s | %s | %s | %s | %s |"%(os.path.basename(d),', '.join(os.path.basename(f) for f in m.get('files_changed',[]))[:60],needs,first,
+        ("**caught** (%s)"%', '.join(c.get('violation_classes',[]))[:150]) if c.get('detected') else "**not caught**",reg))
+print("| seed | files | needs, to manifest | first evaluation | evaluation kept in meta.json | final regression run (bin/seed-regress) |")
+print("|---|---|---|---|---|---|")
 print("\n".join(rows))
